@@ -88,7 +88,10 @@ def perturb(rng, cw, sb):
         elif k < 0.26 and os.path.exists(pref): os.rename(pref, leg); tags.append('man:legacy')
         elif k < 0.32: world.write(pref, ds.manifest_bytes('zed', [('x.md', b'x')])); tags.append('man:foreign')
         elif k < 0.42 and os.path.exists(pref):
-            v = json.load(open(pref)); cur = [(e['path'], e['sha256']) for e in v['managed_files']]
+            try:
+                v = json.load(open(pref)); cur = [(e['path'], e['sha256']) for e in v['managed_files']]
+            except (ValueError, KeyError, TypeError):
+                continue   # an earlier perturbation (or a user edit before the deploy) already made this manifest unreadable
             world.write(pref, ds.manifest_bytes(r['target'], cur + [('gone.md', b'g'), ('../escape.md', b'e'), ('/abs.md', b'a'), ('extra1.md', b'extra\n')]))
             tags.append('man:stale+hostile')
     if rng.random() < 0.4:
